@@ -33,6 +33,9 @@ var hoistIndConjuncts = []string{"S1", "S2", "S3", "S5", "M1", "M2", "Bijection"
 func apalache(dir string, limit time.Duration, args ...string) (string, error) {
 	cmd := exec.Command("timeout", append([]string{fmt.Sprint(int(limit.Seconds())), "apalache-mc"}, args...)...)
 	cmd.Dir = dir
+	// Apalache's parser leaves a SANY* directory per run in java.io.tmpdir: keep it inside the scratch directory
+	os.MkdirAll(filepath.Join(dir, "tmp"), 0o755)
+	cmd.Env = append(os.Environ(), "JAVA_TOOL_OPTIONS=-Djava.io.tmpdir="+filepath.Join(dir, "tmp"), "TMPDIR="+filepath.Join(dir, "tmp"))
 	out, err := cmd.CombinedOutput()
 	return string(out), err
 }
